@@ -33,7 +33,9 @@ ASSUMPTIONS = [
   'excluded from the direct oracle)',
   'fairness windows contain no reset cycle (a reset restarts the window at pointer 0)',
 ]
-RULE = ('exhaustive: variant x nreqs x pointer position (steered through the ports: request only input p-1 with en high) x '
+RULE = ('construction order: nreqs=1 attempted first for both classes (rejected, or grant = request), then a seed-dependent small size, '
+        'exhaustive sizes ascending (plain) / descending (En), nreqs=1 again, random histories shuffled over sizes and variants; '
+        'exhaustive: variant x nreqs x pointer position (steered through the ports: request only input p-1 with en high) x '
         'request vector x en x reset; random: histories of 40-300 cycles built from bursts (uniform / sparse / dense / all / '
         'none / one-hot / sticky requester / pair) with per-burst enable and reset probabilities, some starting before the '
         'first reset; one case = one simulated clock cycle (variant, nreqs, pointer, reset, en, reqs); non-trivial = reqs != 0')
@@ -66,8 +68,8 @@ def run_real(has_en, n, hist, wires=False, factory=make):
 
 # ----------------------------------------------------------------------------- model side
 
-def model_line(has_en, n, hist):
-  return leanio.line('arb', 'run', has_en, n, 0, [list(c) for c in hist])
+def model_line(has_en, n, hist, s0=0):
+  return leanio.line('arb', 'run', has_en, n, s0, [list(c) for c in hist])
 
 def parse_trace(reply):
   return [[int(x) for x in grp] for grp in leanio.parse_sexp(reply)]
@@ -217,10 +219,49 @@ def process(ck, items, tag, factory=make):
     ck.hist('variant', VARIANT[has_en], len(hist)); ck.hist('nreqs', n, len(hist)); ck.hist('part', tag, len(hist))
     evaluate(ck, has_en, n, hist, model, impl, tag)
 
+def degenerate(ck, factory, when):
+  """nreqs = 1, both classes.  The property speaks about two or more requesters; the clean tree rejects nreqs = 1 at
+  construction.  Accepted outcomes: rejected (any exception while building), or behaves as the model with n = 1
+  (grant = request, pointer trivially at input 0).  Attempted BEFORE the larger arbiters are built (and again after
+  them): pymtl3 keeps per-class caches of update-block metadata, so what was constructed earlier in the process can
+  change how a later instance of the same class is analysed and scheduled."""
+  rng = ck.rng
+  for has_en in (0, 1):
+    try:
+      m = factory(has_en, 1)
+    except Exception as e:
+      ck.hist('nreqs=1 ' + when, f'{VARIANT[has_en]}: rejected ({type(e).__name__})')
+      continue
+    hist = [[1, 0, 0]] + [[int(rng.random() < 0.05), rng.randint(0, 1) if has_en else 0, rng.randint(0, 1)] for _ in range(40)]
+    model = parse_trace(ck.drv('arb').batch([model_line(has_en, 1, hist, s0=1)])[0])
+    if hasattr(m, 'priority_reg'):
+      ck.hist('nreqs=1 ' + when, f'{VARIANT[has_en]}: built with priority register')
+      impl = run_real(has_en, 1, hist, factory=factory)
+      evaluate(ck, has_en, 1, hist, parse_trace(ck.drv('arb').batch([model_line(has_en, 1, hist)])[0]), impl, 'nreqs=1')
+      continue
+    ck.hist('nreqs=1 ' + when, f'{VARIANT[has_en]}: built, no priority register')
+    for t, (r, e, q) in enumerate(hist):
+      m.reset @= r
+      m.reqs @= q
+      if has_en: m.en @= e
+      m.sim_eval_combinational()
+      g = int(m.grants)
+      m.sim_tick()
+      ck.count([has_en, 1, 1, r, e, q], q != 0)
+      if g != q:
+        ck.violation('grants-nonzero-iff', {'check': 'grants-nonzero-iff', 'variant': VARIANT[has_en]},
+                     {'hasEn': has_en, 'n': 1, 'hist': hist[:t + 1]},
+                     {'cycle': t, 'what': f'nreqs=1: grants={g} reqs={q}', 'oracle': 'one requester: grant = request', 'part': 'nreqs=1'})
+        break
+      if model[t][1] != g:
+        ck.disagreement('Model/Arb.trace(n=1)≈' + VARIANT[has_en], {'hasEn': has_en, 'n': 1, 'hist': hist[:t + 1]}, model[t], [1, g])
+        break
+
 def exhaustive(ck, nmax, factory=make):
   situations = 0
   for has_en in (0, 1):
-    for n in range(2, nmax + 1):
+    # construction order within the process: small -> large for the plain arbiter, large -> small for the En variant
+    for n in (range(2, nmax + 1) if not has_en else range(nmax, 1, -1)):
       segs = list(exhaustive_histories(has_en, n))
       replies = ck.drv('arb').batch([model_line(has_en, n, hist) for _, hist, _ in segs])
       comb_keys, comb_real = [], {}
@@ -252,7 +293,12 @@ def run(ck, factory=make):
   rng = ck.rng
   quick = ck.tier == 'quick'
   nmax = 6 if quick else 8
+  degenerate(ck, factory, 'first')
+  # the sizes built first in this process (per-class caches): nreqs = 1 if accepted, then a seed-dependent small size
+  first = [(h, rng.randint(2, 5), None) for h in (0, 1)]
+  process(ck, [(h, n, random_history(rng, h, n, 60)) for h, n, _ in first], 'random', factory)
   situations = exhaustive(ck, nmax, factory)
+  degenerate(ck, factory, 'after larger sizes')
   ck.extra_cov['exhaustive_part'] = (f'both variants, nreqs 2..{nmax}: every pointer position x request vector x en x reset, '
                                      f'pointer steered through the ports: {situations} test cycles; internal wires kills/'
                                      f'grants_int/priority_reg.in_ compared for every (nreqs, reqs, pointer)')
@@ -269,6 +315,7 @@ def run(ck, factory=make):
     for has_en in (0, 1):
       for _ in range(k):
         items.append((has_en, n, random_history(rng, has_en, n, rng.randint(40, length))))
+  rng.shuffle(items)          # sizes and variants interleaved and repeated (fresh component per history)
   for i in range(0, len(items), 64):
     process(ck, items[i:i + 64], 'random', factory)
     if len(ck.violations) > 20: break
